@@ -195,6 +195,13 @@ def gen_case(rng, direction, n, cid, opts=None):
         tasks[rng.randint(1, n) - 1]["pre"].append(n + 1)
         ext[0]["inwbs"] = rng.random() < 0.5
         ext[0]["id"] = rng.choice(ids) if rng.random() < 0.4 else 9001      # may collide with a member's id
+        # the outside predecessor may wait for an unscheduled task of its own project: none of this WBS's business
+        ext[0]["chain"] = rng.random() < 0.4
+    # backward: a successor outside the WBS that has no dates (an unscheduled task of another project) says
+    # nothing about when its predecessor must end, and is not a task to be scheduled here
+    xsucc = []
+    if direction == "bwd" and rng.random() < 0.12:
+        xsucc.append({"t": rng.randint(1, n), "inwbs": rng.random() < 0.5})
     # resources
     pool = cal_pool(base)
     names = ["A", "B", NONE_NAME]
@@ -280,7 +287,7 @@ def gen_case(rng, direction, n, cid, opts=None):
     I = {"dir": direction, "balance": opts.get("balance", rng.random() < 0.7),
          "submin": rng.choice([0, 0, 0, 1, 30, 59]) * 1000000 + rng.choice([0, 0, 250000, 999000]),
          "defEst": q4(rng.choice([0, 0, 8])), "pstart": pstart, "now": now, "tasks": tasks, "roots": roots,
-         "resources": resources, "ext": ext, "tod": any(r["calname"] in ("tod-end", "div0") for r in resources)}
+         "resources": resources, "ext": ext, "xsucc": xsucc, "tod": any(r["calname"] in ("tod-end", "div0") for r in resources)}
     return {"id": cid, "I": I}
 
 
@@ -322,6 +329,8 @@ def build_wbs(I, keep=None):
                     end=None if e["end"] == MISSING else inst(e["end"]))
         if e.get("inwbs"):
             other.roots.append(x)
+        if e.get("chain"):
+            x.predecessors = [pj.Task(9500 + k, name="extpre%d" % k, estimate=8)]
         exts.append(x)
     w = pj.WBS()
 
@@ -343,6 +352,12 @@ def build_wbs(I, keep=None):
                 pre.append(objs[p])
         if pre:
             objs[i].predecessors = pre
+    for k, e in enumerate(I.get("xsucc", []), start=1):
+        if e["t"] in objs:
+            sx = pj.Task(9600 + k, name="extsucc%d" % k, estimate=8)
+            if e["inwbs"]:
+                other.roots.append(sx)
+            sx.predecessors = [objs[e["t"]]]
     return w, objs, exts
 
 
